@@ -1,4 +1,4 @@
-# C22: the named set `Persistent` ignores tensors made persistent by workload.persistent_tensors
+# C22 regression: the named set `Persistent` ignored tensors made persistent by workload.persistent_tensors before fix 629ad68 (now prints W / W: 4)
 from accelforge.frontend.spec import Spec
 open("c22.yaml", "w").write("""
 arch:
